@@ -58,6 +58,8 @@ def run(ctx):
                     continue
                 if c['id'] == 'P6' and fam == 'xml':
                     continue          # XmlDocument has no envelope, hence no headers
+                if c['id'] == 'P7':
+                    continue          # late subclasses: the XML family resolves type markers in the interface built at start
                 try:
                     w = c01.World(c, fam, v, poly=c['poly'])
                     obs = w.exchange()
